@@ -1307,5 +1307,42 @@ func runC20(c *Ctx) {
 		line, _, _ = hisScanLine(b.Bytes())
 		c.Emit("HIS scan "+hexWire(b.Bytes()), line)
 		c.Stat("crafted_duplicate_length_object")
+
+		// 1430e5c (findLimit): a stream without usable /Length whose data contains a line-initial
+		// object header — the EOL+endstream search of the scan stops at the start of the next
+		// located object, so the outer object is Broken instead of swallowing its successor
+		// (unless an EOL+endstream lies in front of that header); with a usable /Length the
+		// declared extent counts.  Outside the quantifier: model and code must agree.
+		if i%3 == 0 {
+			inner := Pick(r, []string{
+				"11 0 obj\n<</Type/XRef>>\nstream\nabc\nendstream\nendobj\n",
+				"11 0 obj\n(s)\nendobj\n",
+				"7 0 obj junk\n",
+				"12 0 obj\n<<>>\nstream\nx\nendstream\nendobj\n13 0 obj\n1\nendobj\n",
+			})
+			pre := hisGenBytes(r, 12)
+			if r.P(1, 3) {
+				pre = append(pre, "\nendstream y "...) // an EOL+endstream in front of the header
+			}
+			data := append(append(append([]byte(nil), pre...), '\n'), inner...)
+			data = append(data, hisGenBytes(r, 8)...)
+			lenText := Pick(r, []string{"", "/Length 5 0 R", "/Length 9 0 R", fmt.Sprintf("/Length %d", len(data)), "/Length 3", fmt.Sprintf("/Length %d", len(data)+40)})
+			var f bytes.Buffer
+			f.WriteString("%PDF-1.5\n")
+			fmt.Fprintf(&f, "2 0 obj\n<<%s/K 1>>\nstream\n", lenText)
+			f.Write(data)
+			f.WriteString(Pick(r, []string{"\nendstream\nendobj\n", "\r\nendstream endobj\n", "\nendstream\n"}))
+			if r.Bool() {
+				fmt.Fprintf(&f, "5 0 obj\n%d\nendobj\n", Pick(r, []int{len(data), 2, len(data) + 1}))
+			}
+			f.WriteString("3 0 obj\n/After\nendobj\ntrailer\n<<>>\n%%EOF\n")
+			fb := f.Bytes()
+			if r.P(1, 4) {
+				fb = fb[:r.Intn(len(fb)+1)]
+			}
+			line, _, _ = hisScanLine(fb)
+			c.Emit("HIS scan "+hexWire(fb), line)
+			c.Stat("crafted_header_inside_stream_" + strings.Fields(line)[0])
+		}
 	}
 }
